@@ -218,6 +218,32 @@ func xgenDocs(c *Ctx, r *rng.R, nSchemas, nDocs int, verbose bool) {
 	feats.print("document features (fraction of documents)", len(docs), false)
 	sizes.print("document sizes", len(docs), false)
 
+	// ---- documents generated with DocOptions{NoDeviations: true}: all must validate
+	{
+		reqs = reqs[:0]
+		var texts []string
+		for si, s := range good {
+			for k := 0; k < per/4+1; k++ {
+				d := gen.GenDocWith(r, s, r.Intn(12), gen.DocOptions{NoDeviations: true})
+				texts = append(texts, d.Text)
+				reqs = append(reqs, "genval "+goodHex[si]+" "+impl.HexW([]byte(d.Text)))
+			}
+		}
+		out = c.Worker.Map(reqs)
+		bad := newTally()
+		n := 0
+		for i, o := range out {
+			if o == "OK" {
+				n++
+				continue
+			}
+			v := parseVal(o)
+			bad.add(v.kind+" "+classify(strings.Join(v.msgs, " | ")), strings.Join(v.msgs, " | ")+"\n"+texts[i])
+		}
+		fmt.Printf("=== documents with NoDeviations: %d/%d validate (%.3f%%)\n", n, len(texts), 100*float64(n)/float64(len(texts)))
+		bad.print("NoDeviations documents rejected", len(texts), true)
+	}
+
 	// ---- faulty documents
 	type fd struct {
 		si int
@@ -316,6 +342,46 @@ func xgenDocs(c *Ctx, r *rng.R, nSchemas, nDocs int, verbose bool) {
 	accepted.print("injected faults ACCEPTED by the library (rule/variant)", 0, true)
 	otherRule.print("injected faults rejected, but not by the intended rule", 0, verbose)
 	crashes.print("injected faults that crash / hang validation", 0, true)
+
+	// ---- several faults in one document
+	{
+		reqs = reqs[:0]
+		var multi [][]gen.DocFault
+		for si, s := range good {
+			for k := 0; k < per/4+1; k++ {
+				fs := gen.InjectDocFaults(r, s, 2+r.Intn(10), 2+r.Intn(2))
+				multi = append(multi, fs)
+				reqs = append(reqs, "genval "+goodHex[si]+" "+impl.HexW([]byte(fs[0].Doc)))
+			}
+		}
+		out = c.Worker.Map(reqs)
+		nf, rej, all, crash := newTally(), 0, 0, 0
+		missed := newTally()
+		for i, o := range out {
+			v := parseVal(o)
+			nf.add(fmt.Sprintf("%d faults injected", len(multi[i])), "")
+			switch v.kind {
+			case "V":
+				rej++
+				every := true
+				for _, f := range multi[i] {
+					if !v.rules[f.Rule] {
+						every = false
+						missed.add(f.Rule+"/"+f.Variant, "")
+					}
+				}
+				if every {
+					all++
+				}
+			case "OK":
+			default:
+				crash++
+			}
+		}
+		fmt.Printf("=== documents with 2-3 injected faults: %d; rejected %.2f%%; every intended rule fired %.2f%%; crash/hang %d\n", len(multi), 100*float64(rej)/float64(len(multi)), 100*float64(all)/float64(len(multi)), crash)
+		nf.print("faults per document", len(multi), false)
+		missed.print("intended rule silent in a multi-fault document (rule/variant)", 0, false)
+	}
 
 	// ---- blind documents
 	reqs = reqs[:0]
